@@ -65,6 +65,10 @@ func runC31(c *Ctx) {
 					okCount = true
 					why = "copy(b, …)"
 				}
+				if dst, _, _, isH := helperCopy(v); isH && dst == b {
+					okCount = true
+					why = "copy(b, …) inside " + render(v)
+				}
 				if ex, ok := v.(*ssa.Extract); ok && ex.Index == 0 {
 					if call, ok := ex.Tuple.(*ssa.Call); ok {
 						_, a := callArgs(call.Common())
@@ -135,6 +139,38 @@ func runC31(c *Ctx) {
 		}
 		c.check(!fromB(sl.X), "C31.own-buffer", "retained plaintext is owned by the reader", st.Store.Pos(), render(sl.X), "retains a slice of caller memory")
 	}
+	// the same delivery moved into a function only Read calls: remain = src[copy(dst, src):] there,
+	// called with (b, plain)
+	for g, site := range c.localHelpers(rd, false) {
+		for _, st := range fieldStores([]*ssa.Function{g}, "SecureAead", "remain") {
+			sl, ok := st.Store.Val.(*ssa.Slice)
+			if !ok || sl.High != nil {
+				continue
+			}
+			cp, ok := sl.Low.(*ssa.Call)
+			if !ok || calleeName(cp.Common()) != "builtin:copy" {
+				continue
+			}
+			arg := func(v ssa.Value) ssa.Value {
+				for i, p := range g.Params {
+					if ssa.Value(p) == v && i < len(site.Common().Args) {
+						return site.Common().Args[i]
+					}
+				}
+				return nil
+			}
+			if arg(cp.Call.Args[0]) == b && plain != nil && arg(sl.X) == plain && cp.Call.Args[1] == sl.X {
+				okRemain = true
+				c.ok("C31.read-contract", "SecureAead.Read retains the uncopied plaintext", st.Store.Pos(), "remain = plain[copy(b, plain):] in "+g.Name())
+				c.check(!fromB(arg(sl.X)), "C31.own-buffer", "retained plaintext is owned by the reader", st.Store.Pos(), render(arg(sl.X)), "retains a slice of caller memory")
+				for _, rs := range returnSites(g) {
+					if len(rs.Results) == 1 && rs.Results[0] == ssa.Value(cp) {
+						c.check(dominatesInstr(st.Store, rs.Ret), "C31.read-contract", "remainder stored before returning", rs.pos(), "store dominates return", "returns before retaining the remainder")
+					}
+				}
+			}
+		}
+	}
 	c.check(okRemain, "C31.read-contract", "SecureAead.Read remainder", rd.Pos(), "kept", "plaintext that does not fit the caller's buffer is not retained for the next call")
 	// drain first: any read from the connection happens only when nothing is retained
 	for _, cs := range c.calls(rd, byCallee("io.ReadFull", "io.ReadAtLeast")) {
@@ -143,7 +179,16 @@ func runC31(c *Ctx) {
 	// success exits: copy from remain (drain) or copy from plain behind Open()==nil
 	for _, e := range successAlts(rd) {
 		cp, ok := e.Results[0].(*ssa.Call)
-		if !ok || calleeName(cp.Common()) != "builtin:copy" {
+		if !ok {
+			continue
+		}
+		if _, src, _, isH := helperCopy(cp); isH {
+			if src == plain {
+				c.requireGuard("C31.nonce-pair", "plaintext delivered only after successful Open", e.pos(), e.Guards, wSame("Open error == nil", `\.Open\(.*#1$`, `^nil$`))
+			}
+			continue
+		}
+		if calleeName(cp.Common()) != "builtin:copy" {
 			continue
 		}
 		if cp.Call.Args[1] == plain {
@@ -580,4 +625,42 @@ func runC31Extra(c *Ctx, pf []*ssa.Function) {
 		}
 	}
 	c.check(len(roles) == 2 && roles[0] != roles[1], "C31.peer-param", "requester and responder take complementary default roles", token.NoPos, strings.Join(roles, " / "), "roles: "+strings.Join(roles, " / "))
+}
+
+// helperCopy: v is a call of a function with a body in the caller's package all of whose returns
+// are copy(p_i, p_j) of two of its parameters; dst and src are the corresponding arguments.
+func helperCopy(v ssa.Value) (dst, src ssa.Value, g *ssa.Function, ok bool) {
+	call, isCall := v.(*ssa.Call)
+	if !isCall || call.Parent() == nil {
+		return nil, nil, nil, false
+	}
+	g = call.Common().StaticCallee()
+	if g == nil || len(g.Blocks) == 0 || g.Pkg != call.Parent().Pkg || g.Signature.Results().Len() != 1 {
+		return nil, nil, nil, false
+	}
+	idx := func(v ssa.Value) int {
+		for i, p := range g.Params {
+			if ssa.Value(p) == v {
+				return i
+			}
+		}
+		return -1
+	}
+	di, si := -1, -1
+	for _, rs := range returnSites(g) {
+		cp, isCp := rs.Results[0].(*ssa.Call)
+		if !isCp || calleeName(cp.Common()) != "builtin:copy" {
+			return nil, nil, nil, false
+		}
+		d, s := idx(cp.Call.Args[0]), idx(cp.Call.Args[1])
+		if d < 0 || s < 0 || (di >= 0 && (d != di || s != si)) {
+			return nil, nil, nil, false
+		}
+		di, si = d, s
+	}
+	args := call.Common().Args
+	if di < 0 || di >= len(args) || si >= len(args) {
+		return nil, nil, nil, false
+	}
+	return args[di], args[si], g, true
 }
